@@ -231,6 +231,12 @@ def shrink(cls, ops):
 
 def run(ctx):
     ctx.prove()
+    # generated model: the method bodies re-read from the source under test, proved equal to Vrptw.v
+    import translate_vrptw as T
+    ctx.gen_step("vrptw", T.translate, "C15_gen",
+                 "harness/translate_vrptw.py (ast -> Gallina printer for Node/Arc constructors and the add_node / "
+                 "get_node_index / add_arc / set_depot / estimate_max_vehicles methods of VRPTW, RoutingProblem "
+                 "and SequenceBasedRoutingProblem) with the Python vocabulary of coq/theories/PyVrptw.v")
     rng = ctx.rng
     n_random = 300 if ctx.quick else 20000
     ex_len = 4      # 11 110 histories for the base class, 1 110 for each sequence class
